@@ -9,7 +9,7 @@ from xknx.telegram import apci as A
 
 from .runner import seed_bytes
 
-LENGTHS = list(range(2, 25)) + [25, 32, 64, 128, 254, 255]
+LENGTHS = list(range(2, 41)) + [48, 64, 128, 254, 255]
 
 
 def concrete_classes() -> list[type]:
